@@ -248,6 +248,69 @@ pub fn gen(g: &mut Gen) {
         }
     }
     gen_softmax(g);
+    gen_large(g);
+}
+
+/// sizes beyond the small exhaustive sweeps (the property quantifies over all sample counts):
+/// block / chunk boundaries 16, 17, 31, 32, 33, 64, 65, and a few arbitrary larger counts
+fn gen_large(g: &mut Gen) {
+    let thorough = g.thorough;
+    let all_vias: Vec<&'static str> = LIST_VIAS.iter().chain(HINT_VIAS.iter()).copied().collect();
+    for e in ["fp", "rat"] {
+        g.op(format!("@ {}", e));
+        let mut counts = vec![16usize, 17, 31, 32, 33, 48, 64, 65, 70];
+        if thorough {
+            counts.extend([15, 18, 47, 49, 63, 96, 100, 127, 128, 129, 200]);
+        }
+        for n in counts {
+            for rep in 0..2 {
+                let v = vals(g, e, n);
+                let via = all_vias[(n + rep) % all_vias.len()];
+                g.op(format!("mean {} via={}", v, via));
+                let via = all_vias[(n + rep + 5) % all_vias.len()];
+                g.op(format!("variance {} via={}", v, via));
+                g.count(&format!("list.length={}", n));
+                g.count("list.large");
+            }
+        }
+    }
+    // covariance with many samples and up to 9 features
+    let mut sizes = vec![(17usize, 9usize), (23, 5), (32, 3), (33, 2), (40, 9), (18, 7)];
+    if thorough {
+        sizes.extend([(64, 4), (65, 9), (100, 3), (31, 8)]);
+    }
+    for (i, (s_n, f_n)) in sizes.iter().enumerate() {
+        gen_cov_case(g, "fp", *s_n, *f_n);
+        if thorough || i % 2 == 0 {
+            gen_cov_case(g, "rat", *s_n, *f_n);
+        }
+        g.count("cov.large");
+    }
+    // softmax of 9..70 inputs: distinct, heavy ties (values from a pool of 3), all negative
+    g.op("@ fp".to_string());
+    let mut lens = vec![9usize, 16, 17, 33, 64, 70];
+    if thorough {
+        lens.extend([31, 32, 65, 128, 200]);
+    }
+    for n in lens {
+        for kind in ["distinct", "ties", "negative", "negative_ties"] {
+            let pool_n = if kind.ends_with("ties") { 3 } else { n };
+            let mut pool: Vec<Fp> = vec![];
+            while pool.len() < pool_n {
+                let v = Fp::new(g.rng.next() % P);
+                if (!kind.starts_with("negative") || v.signed() < 0) && !pool.contains(&v) {
+                    pool.push(v);
+                }
+            }
+            let v: Vec<String> = (0..n)
+                .map(|i| if kind.ends_with("ties") { pool[g.rng.below(3)].0.to_string() } else { pool[i].0.to_string() })
+                .collect();
+            let via = all_vias[(n + kind.len()) % all_vias.len()];
+            g.op(format!("softmax {} via={}", v.join(","), via));
+            g.count(&format!("softmax.length={}", n));
+            g.count(&format!("softmax.large.{}", kind));
+        }
+    }
 }
 
 // ---------------------------------------------------------------------------------------------
